@@ -4,7 +4,7 @@ records which checks catch which change in seeded/<id>/meta.json and seeded/RESU
 import json, os, re, subprocess, sys
 VERIF = os.path.dirname(os.path.dirname(os.path.abspath(__file__)))
 WT = '/tmp/matrix_wt'
-EXTRA = {'C01_3': ['C15'], 'C02_1': ['C15'], 'C02_3': ['C11', 'C20'], 'C10_3': ['C07'], 'C11_2': ['C14'], 'C13_2': ['C09'],
+EXTRA = {'C20_1': ['C11'], 'C20_2': ['C15', 'C01'], 'C04_3': ['C12'], 'C03_1': ['C12'], 'C03_3': ['C10'], 'C01_3': ['C15'], 'C02_1': ['C15'], 'C02_3': ['C11', 'C20'], 'C10_3': ['C07'], 'C11_2': ['C14'], 'C13_2': ['C09'],
          'C14_3': ['C11'], 'C12_1': ['C15', 'C16'], 'C06_3': ['C11']}
 
 
@@ -45,8 +45,14 @@ def main():
     sh('git -C %s reset -q --hard' % WT)
     with open(os.path.join(VERIF, 'seeded', 'RESULTS.md'), 'w') as f:
         f.write('# Seeded changes vs. quick checks (exit 1 = caught, 0 = missed, 2 = inconclusive)\n\n| seed | change | results |\n|---|---|---|\n')
-        for sid, summ, res in rows:
-            f.write('| %s | %s | %s |\n' % (sid, str(summ).replace('|', '/'), ', '.join('%s:%s%s' % (p, x['exit'], (' (' + ';'.join(x['roles'][:2]) + ')') if x['roles'] else '') for p, x in res.items()) if res else summ))
+        for sid in sorted(os.listdir(os.path.join(VERIF, 'seeded'))):
+            mp_ = os.path.join(VERIF, 'seeded', sid, 'meta.json')
+            if not os.path.exists(mp_):
+                continue
+            meta = json.load(open(mp_))
+            res = meta.get('checks_run', {})
+            f.write('| %s | %s | %s |\n' % (sid, str(meta.get('summary', ''))[:90].replace('|', '/'),
+                                             ', '.join('%s:%s%s' % (p, x['exit'], (' (' + ';'.join(x['roles'][:2]) + ')') if x['roles'] else '') for p, x in res.items()) or 'not run'))
     return 0
 
 
